@@ -52,7 +52,7 @@ def gen_history(rng, n, files):
             h.append(rng.choice(["on %d %d %d" % (ch, a, b), "off %d %d" % (ch, a), "cc %d %d %d" % (ch, rng.choice([0, 1, 6, 7, 10, 11, 32, 38, 64, 66, 74, 98, 99, 100, 101, 120, 121, 123, a]), b),
                                  "pc %d %d" % (ch, a), "pb %d %d" % (ch, rng.choice([0, 8192, 16383, 65535])), "pbml %d %d %d" % (ch, a, b), "bank %d %d" % (ch, rng.choice([0, 127, -1, -32768, 32767])),
                                  "bankmsb %d %d" % (ch, a), "banklsb %d %d" % (ch, a), "nat %d %d %d" % (ch, a, b), "cat %d %d" % (ch, a), "panic", "rs",
-                                 "sysex " + rng.choice(["f07e7f0901f7", "f04110421240007f0041f7", "f043104c00007e00f7", "f0", "f7", "-", "f07f7f0401007ff7", "f041104212401115024af7",
+                                 "sysex " + rng.choice(["f07e7f0901f7", "f04110421240007f0041f7", "f043104c00007e00f7", "f0", "f7", "-", "f041f7", "f043f7", "f07ef7", "f07ff7", "f04110f7", "f0431007f7", "f041f7f7", "f07f7f0401007ff7", "f041104212401115024af7",
                                                         "f0411042124000" + "7f" * rng.choice([0, 1, 5, 40]) + "f7"])]))
         elif c < 0.70:
             h.append(rng.choice(["gen %d" % rng.choice([0, 1, 2, 3, 64, 1024, 1025, 4096, -1, -2, -2147483648]), "play %d" % rng.choice([0, 2, 64, 1024, 4096, -1, -7]),
@@ -69,6 +69,8 @@ def gen_history(rng, n, files):
                                  "setins %d %d %d %d %d" % (rng.choice([0, 1]), rng.choice([0, 5]), rng.choice([0, 3]), rng.choice([0, 127, 128, 1000]), rng.choice([0, 0, 1, 2]))]))
         elif c < 0.97:
             h.append("opendata " + rng.choice(files).hex())
+        elif c < 0.985:
+            h.append("devid %d" % rng.choice([7, 7, 1, 15]))
         else:
             h += ["close"] + [rng.choice(["numchips 2", "emu 0", "devid 1", "gen 4", "play 4", "bankdata 00", "opendata 00", "errinfo", "on 0 60 100"]) for _ in range(3)] + ["new 44100"]
     h.append("close")
@@ -122,6 +124,25 @@ def run(tier, replay=None):
             files += gen_smf.mutate(rng, files[-1], 2)
         files += [gen_mus.gen_mus(rng), gen_mus.gen_xmi(rng)] + gen_mus.mutate(rng, gen_mus.gen_xmi(rng), 2) + gen_smf.tail_cases()[:6]
         bank = synth_gen.test_bank(rng, nmel=1, nperc=1, blanks=0.1)[0]
+        # every device id against the shortest framed SysEx messages of every manufacturer the synthesizer knows
+        h = ["new 44100"]
+        for d in range(16):
+            h.append("devid %d" % d)
+            for man in ("41", "43", "7e", "7f", "00"):
+                h += ["sysex f0%sf7" % man, "sysex f0%s%02xf7" % (man, 0x10 + d), "sysex f0%s%02x" % (man, d), "sysex f0%s7f" % man]
+        h.append("close")
+        hs.append(h)
+        # bank map churn: create / remove / look up banks whose ids share hash buckets, enumerate after every step (the settings line walks all banks)
+        for i in range(3 if tier == "quick" else 40):
+            h = ["new 44100"]
+            for _ in range(120):
+                key = (rng.choice([0, 1]), rng.choice([0, 1, 2, 3, 64]), rng.choice([0, 1, 2, 3]))
+                h.append(rng.choice(["getbank %d %d %d 1" % key, "getbank %d %d %d 1" % key, "getbank %d %d %d 3" % key, "rmbank %d %d %d" % key, "getbank %d %d %d 0" % key,
+                                     "getins %d %d %d 5" % key, "setins %d %d %d 7 0" % key, "reservebanks %d" % rng.choice([1, 8, 40])]))
+                if rng.random() < 0.15:
+                    h.append("on 0 60 100"); h.append("off 0 60")
+            h.append("close")
+            hs.append(h)
         for i in range(10 if tier == "quick" else 150):
             h = gen_history(rng, 60, files)
             if i % 3:
